@@ -375,6 +375,23 @@ def check(spec: FrameSpec):
                              "proved" if ok else "failed", 0.0, "frameflow", detail="" if ok else f"also called from {sorted(callers - set(allowed))}")
         o.case = callee
         rep.obligations.append(o)
+    # the "fresh object" summary used at call sites of spec.fresh_methods is itself an obligation on those methods: the object
+    # they return carries no derived cache (no store of a non-None value into a cache field of any object in the method)
+    for fm in sorted(spec.fresh_methods):
+        m = an.methods.get(fm)
+        if m is None:
+            continue
+        bad = None
+        for n in ast.walk(m):
+            targets = n.targets if isinstance(n, ast.Assign) else ([n.target] if isinstance(n, (ast.AugAssign, ast.AnnAssign)) else [])
+            for t in targets:
+                if isinstance(t, ast.Attribute) and t.attr in spec.cache_fields and not (isinstance(getattr(n, "value", None), ast.Constant) and n.value.value is None):
+                    bad = (t.attr, n.lineno)
+        o = paths.Obligation(f"{spec.prop}/{spec.relpath}:{spec.cls}.{fm}#frame.returns-object-without-derived-caches", "frame", "proved" if bad is None else "failed", 0.0, "frameflow",
+                             detail="" if bad is None else f"{fm}() stores a value into the cache field {bad[0]} at line {bad[1]}: callers that write {spec.field} of the returned object "
+                                                           f"without calling {spec.clean}() (they rely on it being cache-free) would leave that cache stale")
+        o.case = fm
+        rep.obligations.append(o)
     rep.paths = sum(len(v) for v in exits.values())
     rep.wall = time.time() - t0
     rep.status = "failed" if any(o.status == "failed" for o in rep.obligations) else "proved"
